@@ -14,18 +14,18 @@ import (
 	"github.com/mdlayher/metricslite"
 )
 
-type lstRead struct {
+type vfLstRead struct {
 	kind      int // 0 msg, 1 timeout, 2 error
 	msgKind   int
 	hop, host int
 }
 
 // runListen drives the real (*listener).Listen over a script of ReadFrom results.
-func runListen(t *testing.T, out *vfh.Out, script []lstRead) {
+func vfRunListen(t *testing.T, out *vfh.Out, script []vfLstRead) {
 	out.Pending(fmt.Sprintf("runListen script=%+v", script))
 	synctest.Test(t, func(t *testing.T) {
 		mm := NewMetrics(metricslite.NewMemory(), "v", time.Time{}, nil, nil)
-		conn := newVfConn()
+		conn := vfNewVfConn()
 		l := newListener(NewContext(nil, mm, nil), "vf0", conn)
 		ctx, cancel := context.WithCancel(context.Background())
 		var delivered [][2]int
@@ -33,12 +33,12 @@ func runListen(t *testing.T, out *vfh.Out, script []lstRead) {
 		go func() {
 			done <- l.Listen(ctx, func(m message) error {
 				k := 9
-				for i, n := range advTypeNames {
+				for i, n := range vfAdvTypeNames {
 					if m.Message.Type().String() == n {
 						k = i
 					}
 				}
-				delivered = append(delivered, [2]int{k, hostID(m.Host)})
+				delivered = append(delivered, [2]int{k, vfHostID(m.Host)})
 				return nil
 			})
 		}()
@@ -54,7 +54,7 @@ func runListen(t *testing.T, out *vfh.Out, script []lstRead) {
 			switch r.kind {
 			case 0:
 				c.S("M").N(r.msgKind).N(r.hop).N(r.host)
-				rd = vfRead{m: advMessage(advEvent{kind: r.msgKind, host: r.host}), hop: r.hop, host: vfHosts[r.host].WithZone("vf0")}
+				rd = vfRead{m: vfAdvMessage(vfAdvEvent{kind: r.msgKind, host: r.host}), hop: r.hop, host: vfHosts[r.host].WithZone("vf0")}
 			case 1:
 				c.S("T")
 				rd = vfRead{err: vfTimeout{}}
@@ -79,7 +79,7 @@ func runListen(t *testing.T, out *vfh.Out, script []lstRead) {
 					waits = append(waits, time.Since(last))
 					afterTimeout = false
 				}
-				result = classifyListenErr(err)
+				result = vfClassifyListenErr(err)
 			case <-time.After(time.Minute):
 				// neither reading nor returned: the listener is stuck (half-alive)
 				result = "stuck"
@@ -92,7 +92,7 @@ func runListen(t *testing.T, out *vfh.Out, script []lstRead) {
 				if afterTimeout {
 					waits = append(waits, time.Since(last))
 				}
-				result = classifyListenErr(err)
+				result = vfClassifyListenErr(err)
 			case <-time.After(time.Second):
 				result = "running"
 				if afterTimeout {
@@ -134,7 +134,7 @@ func runListen(t *testing.T, out *vfh.Out, script []lstRead) {
 		var invKinds []int
 		for _, r := range script {
 			if r.kind == 0 && r.hop != 255 {
-				lbl := "interface=vf0,message=" + advTypeNames[r.msgKind]
+				lbl := "interface=vf0,message=" + vfAdvTypeNames[r.msgKind]
 				if inv[lbl] > 0 {
 					inv[lbl]--
 					invKinds = append(invKinds, r.msgKind)
@@ -159,7 +159,7 @@ func runListen(t *testing.T, out *vfh.Out, script []lstRead) {
 	})
 }
 
-func classifyListenErr(err error) string {
+func vfClassifyListenErr(err error) string {
 	switch {
 	case err == nil:
 		return "nil"
@@ -172,81 +172,81 @@ func classifyListenErr(err error) string {
 
 func verifC09(t *testing.T, r *vfh.Rand, out *vfh.Out) {
 	// (1) Listen over scripts: exhaustive small scripts over {valid RS, valid RA, bad hop, NS, NA}
-	alphabet := []lstRead{{0, 0, 255, 1}, {0, 1, 255, 2}, {0, 0, 64, 1}, {0, 2, 255, 3}, {0, 3, 254, 4}}
+	alphabet := []vfLstRead{{0, 0, 255, 1}, {0, 1, 255, 2}, {0, 0, 64, 1}, {0, 2, 255, 3}, {0, 3, 254, 4}}
 	k := 4
 	if vfh.Thorough() {
 		k = 7
 	}
-	var rec func(cur []lstRead)
-	rec = func(cur []lstRead) {
+	var rec func(cur []vfLstRead)
+	rec = func(cur []vfLstRead) {
 		if len(cur) > 0 {
-			runListen(t, out, cur)
+			vfRunListen(t, out, cur)
 		}
 		if len(cur) == k {
 			return
 		}
 		for _, a := range alphabet {
-			rec(append(append([]lstRead(nil), cur...), a))
+			rec(append(append([]vfLstRead(nil), cur...), a))
 		}
 	}
 	rec(nil)
 	// runs of n invalid messages followed by a valid one, n beyond three times the retry budget
 	for n := 1; n <= 16; n++ {
-		var s []lstRead
+		var s []vfLstRead
 		for i := 0; i < n; i++ {
-			s = append(s, lstRead{0, r.Intn(4), vfh.Pick(r, []int{0, 1, 64, 254}), r.Intn(5)})
+			s = append(s, vfLstRead{0, r.Intn(4), vfh.Pick(r, []int{0, 1, 64, 254}), r.Intn(5)})
 		}
-		s = append(s, lstRead{0, 0, 255, 1})
-		runListen(t, out, s)
+		s = append(s, vfLstRead{0, 0, 255, 1})
+		vfRunListen(t, out, s)
 	}
 	// … all from ONE source (a host with a broken stack, or someone spoofing it): 1..40 invalid
 	// messages, then a valid one from the same source and one from another
 	for _, n := range []int{1, 5, 9, 10, 11, 12, 20, 40} {
-		var s []lstRead
+		var s []vfLstRead
 		for i := 0; i < n; i++ {
-			s = append(s, lstRead{0, i % 2, vfh.Pick(r, []int{0, 1, 64, 254}), 1})
+			s = append(s, vfLstRead{0, i % 2, vfh.Pick(r, []int{0, 1, 64, 254}), 1})
 		}
-		s = append(s, lstRead{0, 0, 255, 1}, lstRead{0, 1, 255, 2})
-		runListen(t, out, s)
+		s = append(s, vfLstRead{0, 0, 255, 1}, vfLstRead{0, 1, 255, 2})
+		vfRunListen(t, out, s)
 	}
 	// random scripts with timeouts and errors mixed in
 	n := vfh.N(1500, 30000)
 	for i := 0; i < n; i++ {
 		ln := 1 + r.Intn(14)
-		var s []lstRead
+		var s []vfLstRead
 		for j := 0; j < ln; j++ {
 			switch {
 			case r.Chance(1, 5):
-				s = append(s, lstRead{kind: 1})
+				s = append(s, vfLstRead{kind: 1})
 			case r.Chance(1, 25):
-				s = append(s, lstRead{kind: 2})
+				s = append(s, vfLstRead{kind: 2})
 			default:
 				hop := 255
 				if r.Chance(2, 5) {
 					hop = vfh.Pick(r, []int{0, 1, 64, 128, 254})
 				}
-				s = append(s, lstRead{0, r.Intn(4), hop, r.Intn(5)})
+				s = append(s, vfLstRead{0, r.Intn(4), hop, r.Intn(5)})
 			}
 		}
-		runListen(t, out, s)
+		vfRunListen(t, out, s)
 	}
 	// (2) the advertiser as a whole: long runs of invalid messages, then valid solicitations
 	m := vfh.N(200, 4000)
 	for i := 0; i < m; i++ {
-		var evs []advEvent
+		var evs []vfAdvEvent
 		at := time.Duration(1)
 		for run := 1 + r.Intn(3); run > 0; run-- {
 			for k := r.Intn(16); k > 0; k-- {
 				at += time.Duration(r.Range(2, int64(400*time.Millisecond))) &^ 1
-				e := advEvent{t: at | 1, kind: r.Intn(4), host: r.Intn(5), hop: vfh.Pick(r, []int{0, 64, 254, 255})}
+				e := vfAdvEvent{t: at | 1, kind: r.Intn(4), host: r.Intn(5), hop: vfh.Pick(r, []int{0, 64, 254, 255})}
 				if e.hop == 255 && e.kind < 2 {
 					e.kind = 2 + r.Intn(2) // valid hop limit but a type an advertiser ignores
 				}
 				evs = append(evs, e)
 			}
 			at += time.Duration(r.Range(2, int64(time.Second))) &^ 1
-			evs = append(evs, advEvent{t: at | 1, kind: 0, host: 1 + r.Intn(4), hop: 255})
+			evs = append(evs, vfAdvEvent{t: at | 1, kind: 0, host: 1 + r.Intn(4), hop: 255})
 		}
-		runAdv(t, out, "adv9", 200*time.Second, 600*time.Second, r.Chance(1, 3), evs, at+2*time.Second+1, -1)
+		vfRunAdv(t, out, "adv9", 200*time.Second, 600*time.Second, r.Chance(1, 3), evs, at+2*time.Second+1, -1)
 	}
 }
